@@ -45,6 +45,7 @@ typedef struct SimKnobs {
     uint64_t max_blocks;  /* basic-block budget for the run (fuel) */
 } SimKnobs;
 extern SimKnobs K;
+extern int sim_stack_junk;   /* -1 off, else byte used to pre-fill the top 2 MiB of every new task stack */
 
 /* ---------------- images ---------------- */
 typedef int (*sim_main_fn)(int, char **);
